@@ -1247,7 +1247,10 @@ def sc_override_beyond(seed):
         ('constant_to_blank', (0, 0, 0, BLANK)), ('constant_to_text', (0, 0, 1, 'abc')), ('constant_to_bool', (0, 0, 1, True)),
         ('text_to_number_other_column', (0, 1, 1, 7)), ('blank_other_column_below', (0, 1, 30, 8)), ('empty_other_sheet', (1, 0, 1, 7)),
         ('empty_other_sheet_far', (1, 0, 500, 7)),
-    ]:
+    ] + [(f'row_{r + 1}_at_or_below_used_range', (0, 0, r, 5)) for r in range(4, 26)] \
+      + [(f'row_{r + 1}_other_column_at_or_below_used_range', (0, 1, r, 8)) for r in range(4, 26, 3)]:
+        # rows 5..26 one by one: whichever of them is the first row below the rows the sheet had when it was translated is
+        # among them (an off-by-one in the extension of a whole-column area needs exactly that row)
         state = {(0, 0, 0): 1, (0, 0, 1): 2, (0, 0, 3): 4, (0, 1, 1): 'x'}
         state[ov[:3]] = ov[3]
 
@@ -1308,7 +1311,7 @@ def _shapes_finish(res, nseeds, t0):
                  'ZZ:AAA; areas ending in column XFD (whole-file and entry-point translation); whole columns A:A, A:C, several, on two sheets '
                  'with the same text; 1..12, 29..31, 64, 128, 254, 255 arguments (cells, areas, literals); the same formula text at the same address '
                  'on 4 sheets with cross references both ways (whole-file and entry-point translation); overrides of blank cells inside and '
-                 'beyond the used range read through whole-column and bounded areas; 8 functions each (5 numeric ones for whole columns)',
+                 'beyond the used range read through whole-column and bounded areas, among them every single row 5..26 of column A (and every third of column B) so that the first row below the translated rows is one of them; 8 functions each (5 numeric ones for whole columns)',
         'rule': 'one evaluation = one formula value compared with the fold over the planted (or overridden) contents of the cells the '
                 'area text denotes; formulas without clause are not counted',
         'exhaustive': False, 'evaluations': st['evaluations'], 'distinct_nontrivial': st['nontrivial'], 'failing_evaluations': st['failing'],
